@@ -5,7 +5,7 @@ use crate::model::{Op, K};
 
 const INF: f64 = f64::INFINITY;
 
-fn index_lists(n: usize, max_len: usize) -> Vec<Vec<usize>> {
+pub fn index_lists(n: usize, max_len: usize) -> Vec<Vec<usize>> {
     let mut out: Vec<Vec<usize>> = Vec::new();
     let mut cur: Vec<Vec<usize>> = vec![vec![]];
     for _ in 0..max_len {
